@@ -59,6 +59,71 @@ Print Assumptions C02_half_step_exact.
 Example C02_hyps_satisfiable : (0 <= 0 <= 11)%R /\ (0 <= 104 / 10 <= 11)%R /\ (0 < 11)%R.
 Proof. repeat split; lra. Qed.
 
+(* (5) IEEE arithmetic (Flocq; float32 / float16 / bfloat16), element level.  For EVERY finite x within
+       2^(prec-2) steps of zero, every finite positive scale with a representable grid and every integer
+       zero-point of [0, L], L = 2^bits - 1, bits <= 7:
+       - the code is an integer c of [0, L] stored exactly: the uint8 cast of the code and the int8 casts of
+         the dequantizer never wrap;
+       - the dequantized value is finite and, up to the stated rounding slack, a closest point of the affine
+         grid { s * (v - zp) : 0 <= v <= L }  (C02_nearest_float: saturation to the nearer end beyond it);
+       - inside the span of the grid the error is at most HALF A STEP s/2 plus that slack (C02_half_step_float).
+       slack = 2(u|x| + s*eta) + (u|s(c-zp)| + eta),  u = 2^-prec, eta = half the smallest subnormal. *)
+From Flocq Require Import IEEE754.BinarySingleNaN.
+From QV Require Import Float.F Proofs.FloatFacts Proofs.C01Float Proofs.AffineFloat.
+Open Scope Z_scope.
+Definition C02_nearest_float_statement (prec emax : Z) (NF : Num (binary_float prec emax)) : Prop :=
+  forall (bits : Z) (x s : binary_float prec emax) (zi : Z),
+  let L := 2 ^ bits - 1 in let ofZ := @n_of_Z _ NF in
+  1 <= bits <= 7 -> 0 <= zi <= L ->
+  is_finite x = true -> is_finite s = true -> (0 < B2R s)%R ->
+  (Rabs (B2R x) <= IZR (2 ^ (prec - 2)) * B2R s)%R -> (IZR L * B2R s <= Fmax prec emax)%R ->
+  exists c : Z, 0 <= c <= L /\ @affq _ NF bits x s (ofZ zi) = ofZ c /\
+    is_finite (@affdq _ NF s (ofZ c) (ofZ zi)) = true /\
+    forall v : Z, 0 <= v <= L ->
+      (Rabs (B2R (@affdq _ NF s (ofZ c) (ofZ zi)) - B2R x) <=
+       Rabs (B2R s * IZR (v - zi) - B2R x)
+       + (2 * (uro prec * Rabs (B2R x) + B2R s * eta prec emax)
+          + (uro prec * Rabs (B2R s * IZR (c - zi)) + eta prec emax)))%R.
+
+Definition C02_half_step_float_statement (prec emax : Z) (NF : Num (binary_float prec emax)) : Prop :=
+  forall (bits : Z) (x s : binary_float prec emax) (zi : Z),
+  let L := 2 ^ bits - 1 in let ofZ := @n_of_Z _ NF in
+  1 <= bits <= 7 -> 0 <= zi <= L ->
+  is_finite x = true -> is_finite s = true -> (0 < B2R s)%R ->
+  (Rabs (B2R x) <= IZR (2 ^ (prec - 2)) * B2R s)%R -> (IZR L * B2R s <= Fmax prec emax)%R ->
+  (B2R s * IZR (0 - zi) <= B2R x <= B2R s * IZR (L - zi))%R ->
+  exists c : Z, 0 <= c <= L /\ @affq _ NF bits x s (ofZ zi) = ofZ c /\
+    is_finite (@affdq _ NF s (ofZ c) (ofZ zi)) = true /\
+    (Rabs (B2R (@affdq _ NF s (ofZ c) (ofZ zi)) - B2R x) <=
+       B2R s / 2 + (2 * (uro prec * Rabs (B2R x) + B2R s * eta prec emax)
+                    + (uro prec * Rabs (B2R s * IZR (c - zi)) + eta prec emax)))%R.
+
+Theorem C02_nearest_float32 : C02_nearest_float_statement 24 128 Num32.
+Proof. exact (affine_nearest_float 24 128 Hp24 Hpe24 ltac:(lia) ltac:(lia)). Qed.
+Print Assumptions C02_nearest_float32.
+Theorem C02_nearest_float16 : C02_nearest_float_statement 11 16 Num16.
+Proof. exact (affine_nearest_float 11 16 Hp11 Hpe11 ltac:(lia) ltac:(lia)). Qed.
+Print Assumptions C02_nearest_float16.
+Theorem C02_nearest_bfloat16 : C02_nearest_float_statement 8 128 NumB16.
+Proof. exact (affine_nearest_float 8 128 Hp8 Hpe8 ltac:(lia) ltac:(lia)). Qed.
+Print Assumptions C02_nearest_bfloat16.
+Theorem C02_half_step_float32 : C02_half_step_float_statement 24 128 Num32.
+Proof. exact (affine_half_step_float 24 128 Hp24 Hpe24 ltac:(lia) ltac:(lia)). Qed.
+Print Assumptions C02_half_step_float32.
+Theorem C02_half_step_float16 : C02_half_step_float_statement 11 16 Num16.
+Proof. exact (affine_half_step_float 11 16 Hp11 Hpe11 ltac:(lia) ltac:(lia)). Qed.
+Print Assumptions C02_half_step_float16.
+Theorem C02_half_step_bfloat16 : C02_half_step_float_statement 8 128 NumB16.
+Proof. exact (affine_half_step_float 8 128 Hp8 Hpe8 ltac:(lia) ltac:(lia)). Qed.
+Print Assumptions C02_half_step_bfloat16.
+
+(* non-vacuity of (5), float16: x = 0.3, s = 0.01 (grid step), zero-point 7, int4: code 15 (saturated at the
+   upper end: 0.3/0.01 + 7 = 37 > 15); x = 0.05: code 12 *)
+Example C02_float_example :
+  f16_code SUInt8 (@affq _ Num16 4 (f16_of_bits 13517) (f16_of_bits 8479) (@n_of_Z _ Num16 7)) = 15 /\
+  f16_code SUInt8 (@affq _ Num16 4 (f16_of_bits 10854) (f16_of_bits 8479) (@n_of_Z _ Num16 7)) = 12.
+Proof. vm_compute. split; reflexivity. Qed.
+
 (* MaxOptimizer (int2 / int4), for any number type, rank and shape: one scale per cell of the reduction (per kept-axis
    index, or per group after grouping), equal to (max(cell max, 0) - min(cell min, 0)) / (2^bits - 1), where the cell
    minimum and maximum are folds over exactly the members of that cell: the quantization range is the hull of the
